@@ -78,6 +78,7 @@ package binary
 //@   ensures(pos) err == nil ==> rpos(sr.reader) == old(rpos(sr.reader)) + 8
 //@   ensures(val) err == nil ==> bits(result) == be64at(rin(sr.reader), old(rpos(sr.reader)))
 //@   ensures(complete) old(rpos(sr.reader)) + 8 <= rlen(sr.reader) ==> err == nil
+//@   ensures(mono) rpos(sr.reader) >= old(rpos(sr.reader)) && rpos(sr.reader) <= old(rpos(sr.reader)) + 8
 //@   ensures(valid) validSR(sr)
 
 //@ contract (*StreamReader).ReadBool
@@ -89,6 +90,7 @@ package binary
 //@   ensures(strict) err == nil ==> rin(sr.reader)[old(rpos(sr.reader))] == 0 || rin(sr.reader)[old(rpos(sr.reader))] == 1
 //@   ensures(val) err == nil ==> (result <==> rin(sr.reader)[old(rpos(sr.reader))] == 1)
 //@   ensures(complete) old(rpos(sr.reader)) + 1 <= rlen(sr.reader) && (rin(sr.reader)[old(rpos(sr.reader))] == 0 || rin(sr.reader)[old(rpos(sr.reader))] == 1) ==> err == nil
+//@   ensures(mono) rpos(sr.reader) >= old(rpos(sr.reader)) && rpos(sr.reader) <= old(rpos(sr.reader)) + 1
 //@   ensures(valid) validSR(sr)
 
 //@ contract (*StreamReader).readBytes
@@ -627,8 +629,205 @@ package binary
 //@   ensures(versioned) err == nil && avail >= 2 && b0 & 128 != 0 ==> typeis(result1, *EnvelopeV1Responder)
 //@   ensures(bare) err == nil && avail >= 2 && b0 != 0 && b0 & 128 == 0 ==> typeis(result1, *noEnvelopeResponder)
 
-// Whole-envelope and whole-value decoding through the random-access reader is
-// not under contract yet: only its effect on the heap is assumed here.
+// ---------------------------------------------------------------------------
+// Random-access decoder (reader.go): an *offsetReader presents an io.ReaderAt as
+// an io.Reader. Representation: its abstract read position IS the offset field
+// (ghostalias), its content and length are the ReaderAt's (orView, definitional).
+
+//@ ghostalias rpos offsetReader.offset
+//@ axiom orView(o) = rin(o) == rin(o.reader) && rlen(o) == rlen(o.reader)
+//@ define validRd(r) = r != nil && r.or != nil && r.sr != nil && typeis(r.sr.reader, *offsetReader) && r.sr.reader.(*offsetReader) == r.or && r.or.offset >= 0 && r.or.offset <= 4611686018427387904
+
+//@ contract (*offsetReader).Read
+//@   props C02 C03
+//@   nopanic
+//@   requires or != nil
+//@   modifies elems(p), or.offset
+//@   ensures(n) 0 <= result0 && result0 <= len(p)
+//@   ensures(pos) or.offset == old(or.offset) + result0
+//@   ensures(bytes) forall(k, 0, result0, p[k] == rin(or.reader)[old(or.offset) + k])
+//@   ensures(short) result0 < len(p) ==> old(or.offset) + result0 >= rlen(or.reader)
+
+//@ contract (*offsetReader).Seek
+//@   props C03
+//@   nopanic
+//@   requires or != nil
+//@   modifies or.offset
+//@   ensures(start) whence == 0 ==> or.offset == offset && result0 == offset && result1 == nil
+//@   ensures(cur) whence == 1 ==> or.offset == old(or.offset) + offset && result0 == or.offset && result1 == nil
+//@   ensures(other) whence != 0 && whence != 1 ==> result1 != nil && or.offset == old(or.offset)
+
+//@ contract newReader
+//@   props C02 C03
+//@   modifies nothing
+//@   ensures(or) result.or != nil && fresh(result.or) && result.or.offset == off && result.or.reader == r
+//@   ensures(sr) result.sr != nil && fresh(result.sr) && typeis(result.sr.reader, *offsetReader) && result.sr.reader.(*offsetReader) == result.or
+
+// reader.ReadValue: scalars and binaries are the bytes at off, the new offset is
+// where skipping a value of that type from off ends (C03), for every type.
+//@ contract (*reader).ReadValue
+//@   props C02 C03 C12
+//@   requires r != nil && r.or != nil && r.sr != nil && typeis(r.sr.reader, *offsetReader) && r.sr.reader.(*offsetReader) == r.or && off >= 0 && off <= 4611686018427387904
+//@   use orView(r.or)
+//@   let a = rin(r.or.reader)
+//@   modifies all
+//@   ensures(kept) unchanged(Reader, reader)
+//@   ensures(valid) validRd(r) && r.or.reader == old(r.or.reader) && r.or == old(r.or) && r.sr == old(r.sr)
+//@   ensures(off) result1 == r.or.offset && result1 >= off
+//@   ensures(end) err == nil ==> result1 == skipEnd(a, t, off)
+//@   ensures(typ) err == nil ==> result0.typ == t && knownty(t)
+//@   ensures(bool) err == nil && t == 2 ==> (result0.tnumber == 1 <==> a[off] == 1) && (result0.tnumber == 0 || result0.tnumber == 1)
+//@   ensures(i8) err == nil && t == 3 ==> int8(result0.tnumber) == int8(a[off])
+//@   ensures(double) err == nil && t == 4 ==> result0.tnumber == be64at(a, off)
+//@   ensures(i16) err == nil && t == 6 ==> int16(result0.tnumber) == int16(be16at(a, off))
+//@   ensures(i32) err == nil && t == 8 ==> int32(result0.tnumber) == int32(be32at(a, off))
+//@   ensures(i64) err == nil && t == 10 ==> int64(result0.tnumber) == int64(be64at(a, off))
+//@   ensures(binlen) err == nil && t == 11 ==> int32(be32at(a, off)) >= 0 && len(result0.tbinary) == int64(int32(be32at(a, off)))
+//@   ensures(binbytes) err == nil && t == 11 ==> forall(k, 0, len(result0.tbinary), result0.tbinary[k] == a[off + 4 + k])
+
+//@ contract (*reader).readStructStream
+//@   props C02 C03
+//@   requires validRd(r)
+//@   use orView(r.or)
+//@   let a = rin(r.or.reader)
+//@   let p0 = r.or.offset
+//@   let or0 = r.or
+//@   let sr0 = r.sr
+//@   modifies all
+//@   ensures(kept) unchanged(Reader, reader)
+//@   use unfoldFields(rin(r.or.reader), r.or.offset)
+//@   loop 1: invariant validRd(r) && r.or == or0 && r.sr == sr0 && rin(r.or.reader) == a && rin(r.or) == a && r.or.offset >= p0
+//@   loop 1: invariant(hdrpos) ok ==> r.or.offset >= p0 + 3 && a[r.or.offset - 3] != 0
+//@   loop 1: invariant(hdrtype) ok ==> fh.Type == int8(a[r.or.offset - 3])
+//@   loop 1: invariant(hdrend) ok ==> fieldsEnd(a, r.or.offset - 3) == fieldsEnd(a, p0)
+//@   loop 1: invariant(stop) !ok ==> r.or.offset == fieldsEnd(a, p0)
+//@   loop 1: use unfoldFields(a, r.or.offset - 3)
+//@   loop 1: use unfoldFields(a, r.or.offset - 1)
+//@   ensures(valid) validRd(r) && r.or == or0 && r.sr == sr0 && r.or.reader == old(r.or.reader)
+//@   ensures(end) err == nil ==> r.or.offset == fieldsEnd(a, p0)
+//@   ensures(mono) r.or.offset >= p0
+
+//@ contract (*reader).readListStream
+//@   props C02 C03
+//@   requires validRd(r)
+//@   use orView(r.or)
+//@   let a = rin(r.or.reader)
+//@   let p0 = r.or.offset
+//@   let or0 = r.or
+//@   let sr0 = r.sr
+//@   modifies all
+//@   ensures(kept) unchanged(Reader, reader)
+//@   ensures(valid) validRd(r) && r.or == or0 && r.sr == sr0 && r.or.reader == old(r.or.reader)
+//@   ensures(end) err == nil ==> r.or.offset == skipEnd(a, 15, p0)
+//@   ensures(lazy) err == nil ==> typeis(result, *lazyValueList) && result.(*lazyValueList) != nil && result.(*lazyValueList).typ == int8(a[p0]) && result.(*lazyValueList).count == int32(be32at(a, p0 + 1)) && result.(*lazyValueList).startOffset == p0 + 5 && result.(*lazyValueList).readerAt == old(r.or.reader) && result.(*lazyValueList).count >= 0
+//@   ensures(mono) r.or.offset >= p0
+
+//@ contract (*reader).readSetStream
+//@   props C02 C03
+//@   requires validRd(r)
+//@   use orView(r.or)
+//@   let a = rin(r.or.reader)
+//@   let p0 = r.or.offset
+//@   let or0 = r.or
+//@   let sr0 = r.sr
+//@   modifies all
+//@   ensures(kept) unchanged(Reader, reader)
+//@   ensures(valid) validRd(r) && r.or == or0 && r.sr == sr0 && r.or.reader == old(r.or.reader)
+//@   ensures(end) err == nil ==> r.or.offset == skipEnd(a, 14, p0)
+//@   ensures(lazy) err == nil ==> typeis(result, *lazyValueList) && result.(*lazyValueList) != nil && result.(*lazyValueList).typ == int8(a[p0]) && result.(*lazyValueList).count == int32(be32at(a, p0 + 1)) && result.(*lazyValueList).startOffset == p0 + 5 && result.(*lazyValueList).readerAt == old(r.or.reader) && result.(*lazyValueList).count >= 0
+//@   ensures(mono) r.or.offset >= p0
+
+//@ contract (*reader).readMapStream
+//@   props C02 C03
+//@   requires validRd(r)
+//@   use orView(r.or)
+//@   let a = rin(r.or.reader)
+//@   let p0 = r.or.offset
+//@   let or0 = r.or
+//@   let sr0 = r.sr
+//@   modifies all
+//@   ensures(kept) unchanged(Reader, reader)
+//@   ensures(valid) validRd(r) && r.or == or0 && r.sr == sr0 && r.or.reader == old(r.or.reader)
+//@   ensures(end) err == nil ==> r.or.offset == skipEnd(a, 13, p0)
+//@   ensures(lazy) err == nil ==> typeis(result, *lazyMapItemList) && result.(*lazyMapItemList) != nil && result.(*lazyMapItemList).ktype == int8(a[p0]) && result.(*lazyMapItemList).vtype == int8(a[p0 + 1]) && result.(*lazyMapItemList).count == int32(be32at(a, p0 + 2)) && result.(*lazyMapItemList).startOffset == p0 + 6 && result.(*lazyMapItemList).readerAt == old(r.or.reader) && result.(*lazyMapItemList).count >= 0
+//@   ensures(mono) r.or.offset >= p0
+
+// pooled lazy containers (trusted, like the stream reader/writer pools)
+//@ contract borrowLazyValueList
+//@   trusted
+//@   modifies nothing
+//@   ensures result != nil && fresh(result)
+//@ contract borrowLazyMapItemList
+//@   trusted
+//@   modifies nothing
+//@   ensures result != nil && fresh(result)
+
+//@ contract (*reader).close
+//@   inline
+
+//@ contract (*Reader).ReadValue
+//@   props C02 C03 C12
+//@   requires br != nil && off >= 0 && off <= 4611686018427387904
+//@   let a = rin(br.reader)
+//@   modifies all
+//@   ensures(kept) unchanged(Reader, reader)
+//@   ensures(off) result1 >= off
+//@   ensures(end) err == nil ==> result1 == skipEnd(a, t, off)
+//@   ensures(typ) err == nil ==> result0.typ == t && knownty(t)
+//@   ensures(bool) err == nil && t == 2 ==> (result0.tnumber == 1 <==> a[off] == 1) && (result0.tnumber == 0 || result0.tnumber == 1)
+//@   ensures(i8) err == nil && t == 3 ==> int8(result0.tnumber) == int8(a[off])
+//@   ensures(double) err == nil && t == 4 ==> result0.tnumber == be64at(a, off)
+//@   ensures(i16) err == nil && t == 6 ==> int16(result0.tnumber) == int16(be16at(a, off))
+//@   ensures(i32) err == nil && t == 8 ==> int32(result0.tnumber) == int32(be32at(a, off))
+//@   ensures(i64) err == nil && t == 10 ==> int64(result0.tnumber) == int64(be64at(a, off))
+//@   ensures(binlen) err == nil && t == 11 ==> int32(be32at(a, off)) >= 0 && len(result0.tbinary) == int64(int32(be32at(a, off)))
+//@   ensures(binbytes) err == nil && t == 11 ==> forall(k, 0, len(result0.tbinary), result0.tbinary[k] == a[off + 4 + k])
+
+// Random-access envelope reader (C12): the same functions of the input bytes as
+// the streaming ReadEnvelopeBegin posts, so the two APIs agree on framing,
+// name, type and sequence id for every input both accept.
+//@ contract (*Reader).readStrictNameType
+//@   props C12
+//@   requires bw != nil && off >= 0 && off <= 4611686018427387904
+//@   let a = rin(bw.reader)
+//@   modifies all
+//@   ensures(kept) unchanged(Reader, reader)
+//@   ensures(version) err == nil ==> uint32(initial) & 4294901760 == 2147549184
+//@   ensures(type) err == nil ==> result0.Type == int8(initial)
+//@   ensures(namelen) err == nil ==> int32(be32at(a, off)) >= 0 && len(result0.Name) == int64(int32(be32at(a, off)))
+//@   ensures(name) err == nil ==> forall(k, 0, len(result0.Name), result0.Name[k] == a[off + 4 + k])
+//@   ensures(off) err == nil ==> result1 == off + 4 + len(result0.Name)
+//@   ensures(mono) result1 >= off
+
+//@ contract (*Reader).readNonStrictNameType
+//@   props C12
+//@   requires bw != nil
+//@   let a = rin(bw.reader)
+//@   modifies all
+//@   ensures(kept) unchanged(Reader, reader)
+//@   ensures(namelen) err == nil ==> int32(be32at(a, 0)) >= 0 && len(result0.Name) == int64(int32(be32at(a, 0)))
+//@   ensures(name) err == nil ==> forall(k, 0, len(result0.Name), result0.Name[k] == a[4 + k])
+//@   ensures(type) err == nil ==> result0.Type == int8(a[4 + len(result0.Name)])
+//@   ensures(off) err == nil ==> result1 == 5 + len(result0.Name)
+//@   ensures(mono) result1 >= 0
+
+//@ contract (*Reader).ReadEnveloped
+//@   props C12
+//@   requires bw != nil
+//@   let a = rin(bw.reader)
+//@   let v = int32(be32at(rin(bw.reader), 0))
+//@   modifies all
+//@   ensures(strictversion) err == nil && v <= 0 ==> uint32(v) & 4294901760 == 2147549184
+//@   ensures(stricttype) err == nil && v <= 0 ==> result0.Type == int8(v)
+//@   ensures(strictname) err == nil && v <= 0 ==> len(result0.Name) == int64(int32(be32at(a, 4))) && forall(k, 0, len(result0.Name), result0.Name[k] == a[8 + k])
+//@   ensures(strictseq) err == nil && v <= 0 ==> result0.SeqID == int32(be32at(a, 8 + len(result0.Name)))
+//@   ensures(legacyname) err == nil && v > 0 ==> len(result0.Name) == int64(v) && forall(k, 0, len(result0.Name), result0.Name[k] == a[4 + k])
+//@   ensures(legacytype) err == nil && v > 0 ==> result0.Type == int8(a[4 + int64(v)])
+//@   ensures(legacyseq) err == nil && v > 0 ==> result0.SeqID == int32(be32at(a, 5 + int64(v)))
+//@   ensures(body) err == nil ==> result0.Value.typ == 12
+
+// Whole-envelope and whole-value decoding through the random-access reader:
+// only the heap effect of the Protocol-level wrappers is assumed here.
 //@ contract (*Protocol).DecodeEnveloped
 //@   trusted
 //@   modifies nothing
